@@ -4,7 +4,7 @@
    Model/EchoWriter.v (LuaEchoWriter).  Reference decoder: Spec/LuaLex.v.  holds_C06: Instances/HoldsC06.v,
    the very predicate the extracted monitor evaluates on (source, text written by the implementation). *)
 From PV Require Import Base.Prelude Generated.T_lexer Model.Lexer Model.EchoWriter Spec.LuaLex
-  Instances.HoldsC06 Proofs.LexerProofs Proofs.LexerInv Proofs.LexerStr Proofs.LexerEnc Proofs.EchoProofs.
+  Instances.HoldsC06 Proofs.LexerProofs Proofs.LexerInv Proofs.LexerStr Proofs.LexerEnc Proofs.LexerChunk Proofs.EchoProofs.
 
 (* THE property for every byte string given as one chunk: if the source is in the dialect it is lexed, and the
    echoed text, walked along the reference tokens of the source, repeats the source byte for byte outside
@@ -18,6 +18,19 @@ Theorem C06_echo : forall src, Forall byte src ->
   end.
 Proof. exact model_holds_C06. Qed.
 Print Assumptions C06_echo.
+
+(* the same when the text arrives split after line feeds (the .p8 path): the written text is the same *)
+Theorem C06_echo_chunks : forall ls, Forall ends_lf (removelast ls) -> Forall byte (concat ls) ->
+  match echo_source ls with
+  | Ok lines => holds_C06 (concat ls) (concat lines) = true
+  | Err _ => holds_C06_error (concat ls) = true
+  end.
+Proof. exact model_holds_C06_chunks. Qed.
+Print Assumptions C06_echo_chunks.
+
+Theorem C06_echo_chunking : forall ls, Forall ends_lf (removelast ls) -> echo_source ls = echo_source [concat ls].
+Proof. exact echo_source_chunking. Qed.
+Print Assumptions C06_echo_chunking.
 
 (* the token list covers the source completely: nothing dropped, nothing duplicated - every lexable input,
    LF or CRLF, with or without final newline, any chunking *)
